@@ -136,6 +136,9 @@ CLAIMED['C16'] = dict(
 
 NOT_APPLICABLE = {
  'C01': 'validity is defined by an external 60 kLoC validator over whole-pipeline output; neither it nor the encoder can be executed symbolically here (DESIGN.md section 4)',
+ 'C02': 'emission functions interleave graph reads with wasm_encoder builder calls and TypeEncoder recursion; deciding the encoded wiring needs a validated model of the builder index spaces that was not built; graph-side bookkeeping is covered by C06, order by C16 (DESIGN.md 9.6)',
+ 'C03': 'the encoded import/export sections are produced by the same builder/TypeEncoder path as C02; the reachable halves are decided elsewhere (implicit-import naming and sharing: C09, which catches both C03 seeds; listing order: C16) but the property as stated (exact sections of the output) is not (DESIGN.md 9.6)',
+ 'C08': 'the converter input is wasmparser\'s validated type arena whose invariants are defined only by the validator; lazily instantiated inputs without them give false alarms, with them require encoding the validator (DESIGN.md 9.6)',
  'C05': 'needs wit-component as reference encoder and the validator subtype relation as comparison; out of reach of symbolic execution (DESIGN.md section 4)',
  'C13': 'round trip runs the logos automaton on printer output; symbolic text through the generated lexer does not terminate in either engine (DESIGN.md section 4)',
  'C19': 'process-level behaviour of an async CLI (argv, files, stdout, exit status); nothing for a solver to quantify over (DESIGN.md section 4)',
